@@ -305,6 +305,10 @@ def run(ctx):
              "its function: the run's task starts only after stop() has emptied the manager's decorator list, so the call handlers are the ones handed over at dispatch time, "
              "not looked up when the task finally runs", floor=1)
     call_handlers_rule(ctx, program, "R13.14")
+    ctx.rule("R13.15", "legacy subsystem: every trigger task of a function carries its @task_unique (a function with two triggers of one type gets two tasks; runs started by "
+             "the second must claim the name like those of the first)", floor=3)
+    from .c08 import legacy_grouping_table
+    legacy_grouping_table(ctx, program, "R13.15")
     ctx.rule("R13.12", "unique names of different global contexts never meet: context names nest ('scripts.a' / 'scripts.a.b') and a name may contain dots, so the qualified key "
              "must still tell ('scripts.a', 'b.lock') from ('scripts.a.b', 'lock') - in the in-use test, in the claim and in task.name2id()", floor=3)
     context_isolation_rule(ctx, program, "R13.12")
